@@ -238,7 +238,9 @@ impl GraphInline {
             GraphInline::SoftBreak => "\n".into(),
             GraphInline::LineBreak => "\n".into(),
             GraphInline::Link(url, _, link_type, inlines) => {
-                let text = inlines_to_markdown(inlines, options);
+                // brackets in the text (a title like "[WIP] Refactor") are escaped: bare, they
+                // would end the text early or turn "[[WIP]](key)" into a wiki link
+                let text = inlines_to_markdown(&escape_brackets(inlines), options);
                 if *link_type == LinkType::WikiLinkPiped {
                     return format!("[[{}|{}]]", url, text);
                 }
@@ -461,6 +463,27 @@ impl GraphInline {
             _ => None,
         }
     }
+}
+
+fn escape_brackets(inlines: &GraphInlines) -> GraphInlines {
+    inlines
+        .iter()
+        .map(|inline| match inline {
+            GraphInline::Str(text) => {
+                GraphInline::Str(text.replace('[', "\\[").replace(']', "\\]"))
+            }
+            GraphInline::Emph(inlines) => GraphInline::Emph(escape_brackets(inlines)),
+            GraphInline::Strong(inlines) => GraphInline::Strong(escape_brackets(inlines)),
+            GraphInline::Strikeout(inlines) => GraphInline::Strikeout(escape_brackets(inlines)),
+            GraphInline::Underline(inlines) => GraphInline::Underline(escape_brackets(inlines)),
+            GraphInline::Superscript(inlines) => {
+                GraphInline::Superscript(escape_brackets(inlines))
+            }
+            GraphInline::Subscript(inlines) => GraphInline::Subscript(escape_brackets(inlines)),
+            GraphInline::SmallCaps(inlines) => GraphInline::SmallCaps(escape_brackets(inlines)),
+            other => other.clone(),
+        })
+        .collect()
 }
 
 // the configured extension goes on references to notes; an anchor, a query or the name of a
